@@ -3,7 +3,7 @@ import ast
 
 import astq
 from effects import effects, is_fresh_expr, base_name
-from model import norm, walk_own, FuncInfo
+from model import walk_own, FuncInfo, full as norm
 
 # attributes that are lazily computed caches or designated state; re-binding them on self is allowed in the named functions
 CACHE_ATTR_WRITERS = {
@@ -200,4 +200,30 @@ def fresh_arguments(P, R, rule, callee_filter=None, floor=0):
                               construct=f'{g.name}({gp}={norm(a)})')
     if floor:
         R.floor(rule, 'call sites of parameter-mutating kernels', n, floor)
+    return n
+
+
+FLOAT_DTYPES = {'np.float64', 'np.float32', 'np.float_', 'np.double', 'float', 'numpy.float64', 'numpy.float32', "'float64'", "'float32'", "'f8'", "'f4'", "'float'", "'d'"}
+
+
+def nan_buffers(P, R, rule, modules, floor=1):
+    """Result buffers initialised with NaN (the 'no value' marker of bounds / measures) must be floating point whatever the
+    coordinate subtype: `np.full(shape, np.nan, dtype=<input>.dtype)` turns NaN into INT_MIN/0 for integer geometries."""
+    n = 0
+    for m in P.mods.values():
+        if not any(m.name == x or m.name.startswith(x + '.') for x in modules):
+            continue
+        for f in m.funcs.values():
+            for c in [x for x in walk_own(f.node) if isinstance(x, ast.Call)]:
+                if not (isinstance(c.func, ast.Attribute) and c.func.attr == 'full' and len(c.args) >= 2 and norm(c.args[1]) in ('np.nan', 'numpy.nan', "float('nan')", 'nan', 'math.nan')):
+                    continue
+                n += 1
+                dt = next((k.value for k in c.keywords if k.arg == 'dtype'), c.args[2] if len(c.args) > 2 else None)
+                if dt is None or norm(dt) in FLOAT_DTYPES:
+                    R.ok(rule, f, c, 'NaN-initialised result buffer is floating point', construct=norm(c))
+                elif isinstance(dt, ast.Attribute) and dt.attr in ('dtype', 'numpy_dtype', 'subtype'):
+                    R.bad(rule, f, c, f'NaN-initialised result buffer takes its dtype from `{norm(dt)}`: with integer coordinates NaN (empty / missing) cannot be represented and becomes INT_MIN or 0', construct=norm(c))
+                else:
+                    R.abstain(rule, f, c, f'cannot classify dtype `{norm(dt)}` of a NaN-initialised buffer', construct=norm(c))
+    R.floor(rule, 'NaN-initialised result buffers', n, floor)
     return n
